@@ -2,22 +2,30 @@ package main
 
 func init() {
 	fns := []string{"merger.ExtendMergerFunc.Merge", "merger.mergeTypes", "merger.mergeRootObjects", "merger.mergeCustomObjects", "merger.mergeCustomObjectFields", "merger.mergeImplements", "merger.mergePossibleTypes", "merger.mergeDirectives", "merger.formatSchema (gqlparser/formatter interpreted)", "merger.TypeURLMap.SetFromSchema", "merger.TypeURLMap.Get/GetURLs/GetTypeIsImplementsNode", "merger.SanitizeNodeMergerFunc.Merge"}
-	mk := func(id, title string, prop int, reach []string, known ...string) {
+	mk := func(id, title string, prop int, reach []string, known3, knownP []string, known ...string) {
 		reg(&Property{
 			ID: id, Title: title,
 			Kernels: []Kernel{
 				{Name: "symschema", Pkg: "merger", Files: []string{"merger/c03.go"}, Entry: "VerifMerge", Mode: "seq", Native: true,
 					Quick: map[string]int{"services": 2, "kinds": 7, "property": prop}, Thorough: map[string]int{"services": 3, "kinds": 3, "property": prop},
 					Reach: reach, Functions: fns, Known: known},
+				{Name: "symschema-plain-id", Pkg: "merger", Files: []string{"merger/c03.go"}, Entry: "VerifMerge", Mode: "seq",
+					Quick: map[string]int{"services": 2, "kinds": 4, "plainid": 1, "property": prop}, Thorough: map[string]int{"services": 3, "kinds": 4, "plainid": 1, "property": prop},
+					Reach: reach, Functions: fns, Known: knownP},
+				{Name: "symschema-three-slim", Pkg: "merger", Files: []string{"merger/c03.go"}, Entry: "VerifMerge", Mode: "seq",
+					Quick: map[string]int{"services": 3, "kinds": 3, "slim": 1, "property": prop}, Thorough: map[string]int{"services": 3, "kinds": 3, "slim": 1, "property": prop},
+					Reach: reach, Functions: fns, Known: known3},
 			},
 			Assume: []string{
+				"symschema-plain-id: kinds absent/object/Node object/input where plain objects and inputs may carry a field id: ID! without implementing Node, and the input field f1 may have a default; every service declares Query.node, no other root toggles",
+				"symschema-three-slim: three services on every change over a slim descriptor (kinds absent/object/Node object, field subsets of {f1,f2}, id-only Node types, every service declares Query.node, no other root toggles)",
 				"SymSchema descriptor: per service one shared type name T with symbolic kind (absent/object/object implementing Node/enum/input/union/scalar), field subset of {f1,f2}, f1's type in {Int,String} with or without an argument with a default, enum value / union member subsets, a shared root field, Query.node present or not; rendered to concrete SDL per path",
 				"gqlparser.LoadSchema (service schemas and the final re-load) runs natively; gqlparser's formatter is interpreted",
 			},
 			Outside: []string{"schemas outside the descriptor (directives, descriptions, interfaces other than Node, more than one shared type)", "more than 3 services"},
 		})
 	}
-	mk("C03", "The merged schema is exactly the union of the service schemas", 3, []string{"merged schema checked"}, "C03-node-field-in-some-services-only", "C03-node-shaped-root-field")
-	mk("C04", "The routing table names a real owner for every routable field", 4, []string{"routing table checked"}, "C04-node-shaped-root-field")
-	mk("C05", "Conflicting service schemas are rejected, independent of service order", 5, []string{"conflict rejected", "accepted in every order"}, "C05-shared-field-different-signature", "C05-node-field-in-some-services-only", "C05-node-shaped-root-field", "C05-three-services-partial-overlap")
+	mk("C03", "The merged schema is exactly the union of the service schemas", 3, []string{"merged schema checked"}, nil, nil, "C03-node-field-in-some-services-only", "C03-node-shaped-root-field")
+	mk("C04", "The routing table names a real owner for every routable field", 4, []string{"routing table checked"}, nil, nil, "C04-node-shaped-root-field")
+	mk("C05", "Conflicting service schemas are rejected, independent of service order", 5, []string{"conflict rejected", "accepted in every order"}, []string{"C05-three-services-partial-overlap"}, []string{"C05-shared-field-different-signature", "C05-plain-types-sharing-only-id", "C05-three-services-partial-overlap"}, "C05-shared-field-different-signature", "C05-node-field-in-some-services-only", "C05-node-shaped-root-field", "C05-three-services-partial-overlap", "C05-plain-types-sharing-only-id")
 }
